@@ -55,6 +55,7 @@ type WSEnd struct {
 	wdlSet       bool
 	wdlExpired   bool
 	flushWaiters int
+	ctlDlWaiters int // control writes with a deadline that are currently waiting
 }
 
 type wsWriteDeadlineEv struct{ e *WSEnd }
@@ -134,6 +135,19 @@ type wsReader struct {
 
 func (g *G) wsNextReader(e *WSEnd) Value {
 	r := g.run
+	if !e.rawPeer && e.readErr == nil {
+		// the library starts waiting for a message: is a read deadline in force on this connection?
+		armed := false
+		if st, ok := e.deadline.(Struct); ok {
+			tt := r.P.NamedType("time", "Time")
+			wall, _ := fieldByName(tt, st, "wall").(Int)
+			ext, _ := fieldByName(tt, st, "ext").(Int)
+			armed = !(wall.T == nil && wall.C == 0 && ext.T == nil && ext.C == 0)
+		}
+		if !armed {
+			r.readsWithoutDeadline++
+		}
+	}
 	for {
 		g.schedPoint(&Op{desc: "ws.NextReader " + e.String(), obj: e, enabled: func() bool {
 			return len(e.inbox) > 0 || e.readErr != nil || e.down || e.dlExpired
@@ -258,8 +272,30 @@ func (g *G) wsEndWrite(w *wsWriter) Value {
 	return Iface{}
 }
 
-func (g *G) wsWriteControl(e *WSEnd, typ int) Value {
-	g.schedPoint(&Op{desc: fmt.Sprintf("ws.control(%d) %s", typ, e.String()), obj: e, enabled: func() bool { return true }})
+func (g *G) wsWriteControl(e *WSEnd, typ int) Value { return g.wsWriteControlDl(e, typ, false, false) }
+
+// wsWriteControlDl: a control frame written by the library. mayStall: the write can be held
+// up by a peer that does not drain its socket (bounded connection capacity); hasDeadline: the
+// caller gave a deadline (WriteControl), or the connection has a write deadline stored
+// (WriteMessage) — then a stalled write may time out, which gorilla makes sticky.
+func (g *G) wsWriteControlDl(e *WSEnd, typ int, mayStall, hasDeadline bool) Value {
+	if mayStall {
+		if hasDeadline {
+			e.ctlDlWaiters++
+		}
+		g.schedPoint(&Op{desc: fmt.Sprintf("ws.control(%d) %s", typ, e.String()), obj: e, enabled: func() bool {
+			return !e.flushStalled(g.run) || (hasDeadline && e.wdlExpired)
+		}})
+		if hasDeadline {
+			e.ctlDlWaiters--
+		}
+		if hasDeadline && e.wdlExpired && e.flushStalled(g.run) {
+			e.wrErr = g.wsErr("write tcp: i/o timeout")
+			return e.wrErr
+		}
+	} else {
+		g.schedPoint(&Op{desc: fmt.Sprintf("ws.control(%d) %s", typ, e.String()), obj: e, enabled: func() bool { return true }})
+	}
 	if e.wrErr != nil {
 		return e.wrErr
 	}
@@ -354,7 +390,7 @@ func init() {
 				g.goPanicPlain("concurrent write to websocket connection")
 			}
 			g.run.recordConnWrite(g, e, "control write via WriteMessage")
-			return g.wsWriteControl(e, typ)
+			return g.wsWriteControlDl(e, typ, true, e.wdlSet)
 		}
 		w, err := g.wsBeginWrite(e, typ)
 		if er, _ := err.(Iface); er.T != nil {
@@ -365,7 +401,12 @@ func init() {
 		return g.wsEndWrite(ww)
 	})
 	C("WriteControl", func(g *G, e *WSEnd, fn *ssa.Function, a []Value) Value {
-		return g.wsWriteControl(e, int(a[0].(Int).C))
+		tt := g.run.P.NamedType("time", "Time")
+		st := a[2].(Struct)
+		wall, _ := fieldByName(tt, st, "wall").(Int)
+		ext, _ := fieldByName(tt, st, "ext").(Int)
+		zeroT := wall.T == nil && wall.C == 0 && ext.T == nil && ext.C == 0
+		return g.wsWriteControlDl(e, int(a[0].(Int).C), true, !zeroT)
 	})
 	C("Close", func(g *G, e *WSEnd, fn *ssa.Function, a []Value) Value {
 		g.schedPoint(&Op{desc: "ws.Close " + e.String(), obj: e, enabled: func() bool { return true }})
